@@ -35,6 +35,9 @@ def urls_from_text(string):
                 if URL_WITH_PROTOCOL_RE.match(remainder):
                     yield remainder
 
+        # NOTE: some unicode whitespace can be matched as part of the hostname
+        url = url.strip()
+
         last_punct = None
 
         stop = len(url) - 1
@@ -46,7 +49,7 @@ def urls_from_text(string):
             i -= 1
 
         if i != stop:
-            url = url[: i + 1]
+            url = url[: i + 1].rstrip()
 
         # NOTE: the markdown target or the trimmed url might not be a url anymore
         if not URL_WITH_PROTOCOL_RE.match(url):
